@@ -74,12 +74,23 @@ func rejectOnFailure(fn *ssa.Function, v ssa.Value) a3Result {
 		if isErrorType(v.Type()) {
 			idx := errResultIndex(fn.Signature)
 			propagated := false
-			if v.Referrers() != nil {
-				for _, r := range *v.Referrers() {
-					if ret, ok := r.(*ssa.Return); ok && idx >= 0 && idx < len(retResults(ret)) && retResults(ret)[idx] == v {
-						propagated = true
+			var flows func(x ssa.Value, d int) bool
+			flows = func(x ssa.Value, d int) bool {
+				if x == v {
+					return true
+				}
+				if ph, ok := x.(*ssa.Phi); ok && d < 4 {
+					for _, e := range ph.Edges {
+						if flows(e, d+1) {
+							return true
+						}
 					}
-					// wrapped: errcode.Wrap(v) etc. followed by a test is handled by the caller
+				}
+				return false
+			}
+			for _, ret := range returnsOf(fn) {
+				if rr := retResults(ret); idx >= 0 && idx < len(rr) && flows(rr[idx], 0) {
+					propagated = true
 				}
 			}
 			if propagated {
